@@ -1,2 +1,170 @@
-(* props/C11.v — placeholder while the proofs are being written *)
-Require Import Aiuti.Batcher.
+(* props/C11.v — C11: same-key requests are computed once per retention window,
+   then afresh.  ONLY theorem statements about the executable macro-step model
+   coq/theories/Batcher.v, each closed by a lemma of BatcherProps.v (invariants in
+   BatcherInv.v / BatcherTime.v), with Print Assumptions beneath, and Examples.
+
+   Quantification: ALL configurations ([cfg_ok]: max_batch_size, concurrency >= 1;
+   any batch_timeout, any retention_timeout including 0) and ALL event lists —
+   the theorems hold with Cancel events as well (C09), although the property only
+   asks for lists without them.
+
+   Vocabulary: [ret s] the retention cache (key -> future), [fdone s] the done
+   futures with outcome and completion tick, [rtimers s] the armed
+   call_later(retention_timeout, cache.pop, key) timers, [g_items s] the requests
+   created so far (ghost), [pending_at s k f] = (k, f) is in the open batch, a
+   queued batch, or the futs of a running batch. *)
+From Coq Require Import List Arith NArith Bool.
+Import ListNotations.
+Require Import Aiuti.Case_Batcher Aiuti.Case_Batcher_Sound Aiuti.Batcher Aiuti.BatcherLimits Aiuti.BatcherTime Aiuti.BatcherInv Aiuti.BatcherProps.
+
+(* No batch ever carries a key twice. *)
+Theorem no_dup_key_in_batch :
+  forall c evs, cfg_ok c -> Forall ev_ok evs ->
+  forall b items t, In (BatchStart b items t) (concat (fst (run c evs))) -> NoDup (map fst items).
+Proof. exact no_dup_key_in_batch_lemma. Qed.
+Print Assumptions no_dup_key_in_batch.
+
+(* At most one pending request per key exists anywhere in the batcher, it is not
+   done, and it is the one the retention cache maps the key to. *)
+Theorem pending_key_unique :
+  forall c evs, cfg_ok c -> Forall ev_ok evs ->
+  let s := snd (run c evs) in
+  (forall k f, pending_at s k f -> is_done s f = false /\ lookup (ret s) k = Some f) /\
+  (forall k f1 f2, pending_at s k f1 -> pending_at s k f2 -> f1 = f2).
+Proof. exact pending_key_unique_lemma. Qed.
+Print Assumptions pending_key_unique.
+
+(* The window.  After any event list:
+   1. if the cache maps k to f then f is the future of a request for k that is
+      pending, or was completed at a tick t with t <= now < t + retention_timeout
+      (never a stale entry; with retention 0 only pending ones);
+   2. every request that is not done is in the cache under its key;
+   3. every request completed less than retention_timeout ago is still in the cache. *)
+Theorem retention_window :
+  forall c evs, cfg_ok c -> Forall ev_ok evs ->
+  let s := snd (run c evs) in
+  (forall k f, lookup (ret s) k = Some f ->
+     (exists it, In it (g_items s) /\ it_key it = k /\ it_fid it = f) /\
+     (is_done s f = false \/ exists o t, lookup (fdone s) f = Some (o, t) /\ (t <= now s < t + c_rt c)%N)) /\
+  (forall it, In it (g_items s) -> is_done s (it_fid it) = false -> lookup (ret s) (it_key it) = Some (it_fid it)) /\
+  (forall it o t, In it (g_items s) -> lookup (fdone s) (it_fid it) = Some (o, t) -> (now s < t + c_rt c)%N ->
+     lookup (ret s) (it_key it) = Some (it_fid it)).
+Proof. exact ret_window_lemma. Qed.
+Print Assumptions retention_window.
+
+(* Shared inside the window (any state s): a call whose key the cache maps to f adds
+   no request (g_items, the future counter and the started batches are unchanged),
+   joins f, and — if f is done — is answered at once with f's outcome, the same value
+   or the same exception; if f is pending it waits for f (props/C04.v [own_outcome]:
+   its outcome is then f's outcome). *)
+Theorem shared_in_window :
+  forall c s a ko f, lookup (ret s) (key_of a ko) = Some f ->
+  let r := step c s (Call a ko) in
+  g_items (fst r) = g_items s /\ nfut (fst r) = nfut s /\ g_started (fst r) = g_started s /\
+  exists cl, callers (fst r) = callers s ++ [cl] /\ cl_fid cl = f /\ cl_key cl = key_of a ko /\
+    match lookup (fdone s) f with
+    | Some (o, _) => snd r = [CallerDone (length (callers s)) o (now s)] /\ cl_st cl = Some o
+    | None => snd r = [] /\ cl_st cl = None
+    end.
+Proof. exact shared_in_window_lemma. Qed.
+Print Assumptions shared_in_window.
+
+(* Fresh after the window: once every request for k so far was completed at least
+   retention_timeout ago (with retention 0: was completed at all), the cache has
+   forgotten k ... *)
+Theorem fresh_after_window :
+  forall c evs k, cfg_ok c -> Forall ev_ok evs ->
+  let s := snd (run c evs) in
+  (forall it, In it (g_items s) -> it_key it = k ->
+     exists o t, lookup (fdone s) (it_fid it) = Some (o, t) /\ (t + c_rt c <= now s)%N) ->
+  lookup (ret s) k = None.
+Proof. exact fresh_after_window_lemma. Qed.
+Print Assumptions fresh_after_window.
+
+(* ... and a call whose key the cache does not hold creates a NEW request with a new
+   future (in any state satisfying LInv, i.e. any reachable state), which it waits
+   for; by [own_outcome] its outcome is produced by the batch that carries this new
+   item, and by [batch_starts_after_arrival] that batch starts at or after the call
+   — never the old result. *)
+Theorem fresh_call_creates_request :
+  forall c s a ko, LInv c s -> lookup (ret s) (key_of a ko) = None ->
+  let s' := fst (step c s (Call a ko)) in
+  let it := mkitem (key_of a ko) a (nfut s) (now s) (maxb s) in
+  g_items s' = g_items s ++ [it] /\ nfut s' = S (nfut s) /\
+  exists cl, callers s' = callers s ++ [cl] /\ cl_fid cl = nfut s /\ cl_key cl = key_of a ko /\ cl_st cl = None.
+Proof. exact fresh_call_lemma. Qed.
+Print Assumptions fresh_call_creates_request.
+
+Theorem batch_starts_after_arrival :
+  forall c evs, cfg_ok c -> Forall ev_ok evs ->
+  let s := snd (run c evs) in
+  forall b its tb it, In (b, its, tb) (g_started s) -> In it its -> (it_t it <= tb)%N.
+Proof. exact batch_starts_after_arrival_lemma. Qed.
+Print Assumptions batch_starts_after_arrival.
+
+(* Every armed retention timer was armed for the future that is currently cached
+   under its key, exactly retention_timeout after that future completed, and is
+   still in the future: a timer can only evict the entry it was armed for (no stale
+   timer evicts a younger entry) and its pop always finds the key. *)
+Theorem ret_timer_sound :
+  forall c evs, cfg_ok c -> Forall ev_ok evs ->
+  let s := snd (run c evs) in
+  forall dl k, In (dl, k) (rtimers s) ->
+    exists f o t, lookup (ret s) k = Some f /\ lookup (fdone s) f = Some (o, t) /\
+                  dl = (t + c_rt c)%N /\ (now s < dl)%N.
+Proof. exact ret_timer_sound_lemma. Qed.
+Print Assumptions ret_timer_sound.
+
+(* Monitor soundness, PARTIAL.  ok_C11 (Case_Batcher.v) judges the observed trace
+   independently of the model.  Proved: acceptance implies that no observed batch
+   carries a key twice.  NOT proved as theorems: the window conjuncts (a call inside the
+   specification's window is answered in its own step with the remembered outcome, a
+   call outside creates the next expected item) are decided against the monitor's own
+   specification of the window; they are tied to the theorems above through [agree]. *)
+Theorem monitor_sound_partial :
+  forall c evs observed w, ok_C11 (BCase c evs observed w) = true ->
+  forall os b items t, In os observed -> In (BatchStart b items t) os -> NoDup (map fst items).
+Proof. exact ok_C11_sound. Qed.
+Print Assumptions monitor_sound_partial.
+
+(* ---- non-vacuity ------------------------------------------------------------------------- *)
+
+Definition ex_cfg := mkcfg 2 2 10%N 20%N.          (* retention_timeout 20 *)
+(* shared while pending (caller 1), inside the window at 29 (caller 2, answered at once),
+   fresh at 30 = completion 10 + 20 (caller 3: a new batch) *)
+Definition ex_evs :=
+  [Call 1 None; Call 1 None; Advance 10; BYield 0 1 (Val 5); Advance 19; Call 1 None; Advance 1; Call 1 None;
+   Advance 10; BYield 1 1 (Val 6)].
+
+Example ex_hyps : cfg_ok ex_cfg /\ Forall ev_ok ex_evs.
+Proof. split; [split; simpl; auto | repeat constructor]. Qed.
+
+Example ex_trace :
+  fst (run ex_cfg ex_evs) =
+  [[]; []; [BatchStart 0 [(1, 1)] 10%N]; [CallerDone 0 (Ret 5) 10%N; CallerDone 1 (Ret 5) 10%N]; [];
+   [CallerDone 2 (Ret 5) 29%N]; []; []; [BatchStart 1 [(1, 1)] 40%N]; [CallerDone 3 (Ret 6) 40%N]].
+Proof. vm_compute. reflexivity. Qed.
+
+(* inside the window the cache holds the key, with an armed timer for tick 30 *)
+Example ex_window :
+  let s := snd (run ex_cfg (firstn 5 ex_evs)) in
+  lookup (ret s) 1 = Some 0 /\ rtimers s = [(30%N, 1)] /\ now s = 29%N.
+Proof. vm_compute. repeat split. Qed.
+
+(* after it the key is forgotten: the hypothesis of fresh_after_window holds *)
+Example ex_fresh :
+  let s := snd (run ex_cfg (firstn 7 ex_evs)) in
+  lookup (ret s) 1 = None /\ now s = 30%N /\ fdone s = [(0, (Ret 5, 10%N))].
+Proof. vm_compute. repeat split. Qed.
+
+(* retention 0: a task that calls again in the continuation of its answer gets a new request *)
+Example ex_chain_rt0 :
+  fst (run (mkcfg 2 2 10%N 0%N) [Chain 1 None 1; Advance 10; BYield 0 1 (Val 5); Advance 10; BYield 1 1 (Val 6)]) =
+  [[]; [BatchStart 0 [(1, 1)] 10%N]; [CallerDone 0 (Ret 5) 10%N]; [BatchStart 1 [(1, 1)] 20%N]; [CallerDone 1 (Ret 6) 20%N]].
+Proof. vm_compute. reflexivity. Qed.
+
+(* the monitor accepts the model's own trace of the example and rejects a batch carrying a key twice *)
+Example ex_monitor :
+  ok_C11 (BCase ex_cfg ex_evs (map canon (fst (run ex_cfg ex_evs))) (waiting_callers (snd (run ex_cfg ex_evs)))) = true /\
+  ok_C11 (BCase ex_cfg [Call 1 None; Call 1 None; Advance 10] [[]; []; [BatchStart 0 [(1, 1); (1, 1)] 10%N]] [0; 1]) = false.
+Proof. vm_compute. split; reflexivity. Qed.
